@@ -106,8 +106,8 @@ def run(tier, seed):
         plan = [(1, "full", 3, 1), (2, "full", 3, 1), (3, "full", 2, 1), (3, "reduced", 3, 1),
                 (4, "reduced", 2, 1)]
     else:
-        plan = [(1, "full", 4, 2), (2, "full", 4, 2), (3, "full", 3, 2), (3, "reduced", 4, 1),
-                (4, "full", 2, 2), (4, "reduced", 3, 1), (5, "reduced", 2, 1)]
+        plan = [(1, "full", 4, 2), (2, "full", 4, 1), (2, "full", 3, 2), (3, "full", 3, 1), (3, "full", 2, 2),
+                (3, "reduced", 4, 1), (4, "full", 2, 2), (4, "reduced", 3, 1), (5, "reduced", 2, 1)]
     for n, level, depth, dev in plan:
         alpha = primitive_alphabet(n, env, level)
         bad = illegal_alphabet(n, env) if dev else []
